@@ -147,3 +147,40 @@ prop("C01", "proof",
       ("C01.exc", c07.exc_table)],
      assumptions=["panics inside pyo3 / CPython / cipher / digest crates, allocation failure and stack overflow are out of scope",
                   "overflow-checks sites are obligations in both profiles: with zero reports no wrapped value exists in the release wheel either"])
+
+from .rules import codec  # noqa: E402
+
+prop("C16", "proof",
+     "Abstract interpretation (`num`, extent mode): in each of the 17 BerDecoder::decode impls every read of the input slice - "
+     "element reads, sub-slices handed to other code (from_utf8, parse_u32, iterators consumed by fold/reduce), slices stored in "
+     "the result - is an obligation `offset + extent <= h.length`; BerHeader::from_ber guarantees (checked contract) "
+     "`length <= len(tail)` and every decode call site satisfies `h.length <= len(i)`. Structural rules: each from_ber returns "
+     "&tail[hdr.length..] of the same header parse; decode(tail, &hdr) pairs; all seven try_from (3 messages, USM, 3 PDUs) "
+     "return Ok only across the empty-remainder edge of their enclosing SEQUENCE.",
+     [("C16.extent", codec.extent), ("C16.hdr", codec.hdr_contract), ("C16.rest", codec.rest), ("C16.pair", codec.pair),
+      ("C16.trailing", codec.trailing)])
+
+prop("C02", "other",
+     "Necessary conditions only (numerical equality of decoded values with their X.690 denotation is NOT decided): the "
+     "(constructed, class, tag) -> decoder/variant table of SnmpValue::from_ber extracted for all 256 cells against X.690 / RFC "
+     "2578 / RFC 3416 and the decoders' TAG constants; decode(tail,&hdr) pairing; extent rule of C16 for all decoders; integer "
+     "casts on the decode path are widening, stored field types and the Python conversion type match the SMI type; the six "
+     "big-endian folds have the canonical step (acc << 8) | octet over take(h.length) (unknown shapes: inconclusive); "
+     "IpAddress octet order; no overflow site in the decoders (shared with C01).",
+     [("C02.dispatch", codec.dispatch), ("C02.pair", codec.pair), ("C02.extent", codec.extent), ("C02.width", codec.width),
+      ("C02.fold", codec.fold), ("C02.ip", codec.ipaddr), ("C02.sites", codec.hdr_contract)])
+
+prop("C08", "other",
+     "Structure and intervals of SnmpOid::try_from(&str): no value-altering call (min/max/clamp/saturating/wrapping/unwrap_or) "
+     "between a parsed arc and the encoded octets; 40*first+second proven within 0..119 before the cast; the leading base-128 "
+     "group of every arm proven within 1..127 (0..127 for one octet) from the engine's cast facts; parse errors propagate, two "
+     "arcs mandatory; every panic site of both conversions discharged; OID text enters only through this conversion and a "
+     "failure returns before the send. NOT decided: print(parse(s)) = s and the base-128 arithmetic of rewritten encoders.",
+     [("C08.text", codec.oid_text), ("C08.entry", codec.oid_entry), ("C08.sites", numrules.c08_sites)])
+
+prop("C15", "other",
+     "Necessary conditions only (round-trip equality over all i64 / OIDs is NOT decided): no undischarged overflow, negation or "
+     "shift site in SnmpInt::push_ber/decode, the OID conversions and push_tag_len (engine `num`); the length-form table of "
+     "push_tag_len (short / 0x81 / 0x82 with the octets in order and ensure_size covering them); the fixed encodings (ZERO_BER, "
+     "NULL_BER, EMPTY_BER, version constants) are minimal TLVs; PDU tag tables of encoder and decoder agree with RFC 3416.",
+     [("C15.nowrap", numrules.c15_nowrap), ("C15.len", codec.length_forms), ("C15.pdu", codec.pdu_tags), ("C15.oid", codec.oid_text)])
